@@ -3,6 +3,6 @@
 TIER=${1:-quick}; shift
 IDS=${@:-$(python3 -c "import json;print(' '.join(c['property_id'] for c in json.load(open('/verif/MANIFEST.json'))['checks']))")}
 mkdir -p /verif/.work/all; rm -f /verif/.work/all/summary.log
-echo $IDS | tr ' ' '\n' | xargs -P 4 -I{} sh -c "cd /verif && ./check {} --tier $TIER > .work/all/{}.log 2>&1; echo \"{} exit=\$?\" >> .work/all/summary.log"
+echo $IDS | tr ' ' '\n' | xargs -P $( [ "$TIER" = thorough ] && echo 2 || echo 4 ) -I{} sh -c "cd /verif && ./check {} --tier $TIER > .work/all/{}.log 2>&1; echo \"{} exit=\$?\" >> .work/all/summary.log"
 sort /verif/.work/all/summary.log
 grep -h "VIOLATION\|TOOL-ERROR" /verif/.work/all/*.log | head -20
